@@ -22,4 +22,36 @@ theorem closed_no_stream (s : St) (h : Reachable s) (hc : s.closed = true) : s.a
 theorem sender_exit_leaves_no_request (s : St) (h : Reachable s) (he : s.spc = .exited) : s.queued = 0 :=
   C09.sender_exit_leaves_no_request s h he
 
+/-- **Close strands no caller** (model level): after Close, when nothing the library or a well-behaved
+    environment does can happen any more, nothing is owed — no request is queued or held by the sender, no answer
+    is in flight, and no request written to a stream is left unanswered — unless a goroutine is blocked in the
+    back-pressure wedge of C09 -/
+theorem closed_rest_owes_nothing (s : St) (h : Reachable s) (hc : s.closed = true) (hs : Stuck s = true) :
+    owes s = false ∨ ShapeBackpressure s = true := by
+  have hi := C09.inv_reachable s h
+  rcases C09.closed_stuck_means_exited s h hc hs with ⟨h1, h2⟩ | h1
+  · left
+    have hq : s.queued = 0 := hi.exitedDrained h1
+    -- the manager is closed: no stream is alive, so nothing is in flight
+    have hinf : s.inflight = 0 := by
+      cases hn : s.inflight with
+      | zero => rfl
+      | succ n =>
+        have := (hi.aliveOpen (hi.inflightAlive (by omega))).1
+        simp [hc] at this
+    have hl : s.lost = 0 := by
+      rcases h2 with h2 | h2
+      · exact hi.exitedNothingLost h2
+      · -- the receiver was never started: no stream was ever created, nothing was written
+        cases hn : s.lost with
+        | zero => rfl
+        | succ n => exact absurd h2 (hi.receiverExists.mp (hi.lostEstablished (by omega)))
+    simp [owes, h1, hq, hinf, hl]
+  · exact Or.inr h1
+
+/-- the exiting receiver answers every request that was written to a stream and is still pending (the repair of
+    defect D12, second half: `cancelPendingMsgs` at the receiver's exit) -/
+theorem receiver_exit_leaves_nothing_lost (s : St) (h : Reachable s) (he : s.rpc = .exited) : s.lost = 0 :=
+  (C09.inv_reachable s h).exitedNothingLost he
+
 end GorumsV.C12
